@@ -40,7 +40,7 @@ def apply_spec(d, m):
         p = os.path.join(d, rel)
         s = open(p).read()
         if s.count(old) != 1:
-            raise SystemExit('mutant %s: pattern occurs %d times in %s' % (m['name'], s.count(old), rel))
+            raise ValueError('mutant %s: pattern occurs %d times in %s' % (m['name'], s.count(old), rel))
         open(p, 'w').write(s.replace(old, new))
 
 
@@ -52,7 +52,10 @@ def run_one(m, tier, skip_tests, keep):
             if r.returncode != 0:
                 return {'name': m['name'], 'error': 'patch failed: ' + r.stdout + r.stderr}
         else:
-            apply_spec(d, m)
+            try:
+                apply_spec(d, m)
+            except ValueError as e:
+                return {'name': m['name'], 'property': m['property'], 'error': str(e)}
         res = {'name': m['name'], 'property': m['property']}
         if not skip_tests:
             ok, tail = run_tests(d)
